@@ -102,6 +102,11 @@ func genC05(r *Rnd, t Tier) *Case {
 				ops = append(ops, Op{Kind: "sleep", Dur: d})
 			}
 		}
+		for i := range ops {
+			if len(ops[i].Kind) > 3 && ops[i].Kind[:3] == "rl." && ops[i].N == 1 && r.Bool() {
+				ops[i].Arg = 1 // the single-permit form of the call
+			}
+		}
 		sc.Clients = append(sc.Clients, Client{Ops: ops})
 	}
 	c := &Case{Sc: sc}
